@@ -6,6 +6,7 @@ import AdbModel.Generated.Src
   every run) computes exactly the model's `Txn.argsMatch`, the predicate every delivery / isolation theorem (C01, C04, C06) is stated with.
   Only property theorems and non-vacuity examples live here.
 -/
+set_option linter.unusedSimpArgs false
 namespace Adb
 open Py
 
@@ -16,22 +17,22 @@ theorem C19_src_args_match (cls : String) (fs : List (String × Py.Val)) (t : Tx
     Src.AdbTransactionInfo_args_match (.obj cls fs) (.int a0) (.int a1) (.bool az) = .ok (.bool (t.argsMatch a0 a1 az)) := by
   obtain ⟨l, r, tt, rt, total⟩ := t
   cases az <;> cases l <;> cases r <;>
-    simp only [Src.AdbTransactionInfo_args_match, Txn.argsMatch, getAttr, hl, hr, encOptNat, bind, Except.bind, pure, Except.pure,
-      not_bool, truthy_bool, eqV_int_int, eqV_int_none, isV_none_none, isV_int_none, inV_int_pair, inV_int_pair_none, andV_bool, orV_bool,
-      Bool.not_false, Bool.not_true, if_true, if_false, Bool.false_eq_true] <;>
+    simp [Src.AdbTransactionInfo_args_match, Txn.argsMatch, pysimp, hl, hr, encOptNat] <;>
     (repeat' split) <;> simp_all
   all_goals first | omega | (rw [Bool.eq_iff_iff]; simp only [Bool.or_eq_true, Bool.and_eq_true, beq_iff_eq]; omega)
 
-/-! ### Non-vacuity (kernel evaluation of the generated definition): exact match, zero fallback, foreign stream -/
+/-! ### Non-vacuity: exact match, zero fallback, unknown remote id, foreign stream (concrete objects meet the hypotheses) -/
 example : Src.AdbTransactionInfo_args_match (.obj "_AdbTransactionInfo" [("local_id", .int 5), ("remote_id", .int 9)]) (.int 9) (.int 5) (.bool false)
-    = .ok (.bool true) := by rfl
-example : Src.AdbTransactionInfo_args_match (.obj "_AdbTransactionInfo" [("local_id", .int 5), ("remote_id", .int 9)]) (.int 9) (.int 0) (.bool false)
-    = .ok (.bool false) := by rfl
+    = .ok (.bool true) :=
+  C19_src_args_match "_AdbTransactionInfo" _ ⟨some 5, some 9, none, none, none⟩ 9 5 false rfl rfl
 example : Src.AdbTransactionInfo_args_match (.obj "_AdbTransactionInfo" [("local_id", .int 5), ("remote_id", .int 9)]) (.int 0) (.int 0) (.bool true)
-    = .ok (.bool true) := by rfl
+    = .ok (.bool true) :=
+  C19_src_args_match "_AdbTransactionInfo" _ ⟨some 5, some 9, none, none, none⟩ 0 0 true rfl rfl
 example : Src.AdbTransactionInfo_args_match (.obj "_AdbTransactionInfo" [("local_id", .int 5), ("remote_id", .none)]) (.int 77) (.int 5) (.bool false)
-    = .ok (.bool true) := by rfl
+    = .ok (.bool true) :=
+  C19_src_args_match "_AdbTransactionInfo" _ ⟨some 5, none, none, none, none⟩ 77 5 false rfl rfl
 example : Src.AdbTransactionInfo_args_match (.obj "_AdbTransactionInfo" [("local_id", .int 5), ("remote_id", .int 9)]) (.int 9) (.int 6) (.bool true)
-    = .ok (.bool false) := by rfl
+    = .ok (.bool false) :=
+  C19_src_args_match "_AdbTransactionInfo" _ ⟨some 5, some 9, none, none, none⟩ 9 6 true rfl rfl
 
 end Adb
